@@ -294,7 +294,8 @@ fn alphabet(tier: Tier) -> Vec<A> {
         }
     }
     v.push(A::Draw(vec![((0, 0), true), ((0, 0), false)]));
-    v.push(A::Draw(vec![((5, 7), true), ((64, 0), false), ((1, 0), true)]));
+    // out-of-range points near and very far from the display (far enough for y * 64 to pass 2^31) between in-range ones
+    v.push(A::Draw(vec![((5, 7), true), ((64, 0), false), ((3, 1 << 30), false), ((-7, i32::MIN), true), ((i32::MAX, i32::MAX), true), ((1, 0), true)]));
     v.push(A::Draw(vec![]));
     v.push(A::Solid((62, 62, 3, 3), true));
     v.push(A::Solid((0, 0, 2, 1), false));
